@@ -138,7 +138,7 @@ theorem stepPS_switch (g : BGraph) (a j : Nat) (x : BVertex) (o : MOp) (hx : g.v
   unfold BGraph.stepPS
   simp only [hs, if_true]
   rw [hx]
-  obtain ⟨n, op, a1, a2, a3, a4, a5, a6⟩ := x
+  obtain ⟨n, op, a1, a2, a3, a4, a5, a6, a7, a8, a9, a10, a11, a12, a13⟩ := x
   simp only at ho
   subst ho
   rfl
